@@ -105,6 +105,7 @@ inductive GVal where
   | addr (a : Addr) | status (s : Status) | auction (a : Auction) | vq (q : VQ) | ints (l : List Int)
   | bidType (t : BidType) | sched (l : List VS) | allowed (l : List AllowedArg) | allowed1 (a : AllowedArg)
   | minfo (m : MInfo) | params (p : Params) | bankIn (i : BankIn) | bankOuts (l : List BankOut) | amap (m : Acc → Option Int)
+  | coins (l : List Coin)
 
 /-- the calls a translated keeper function can record: store writes, bank / distribution
     calls, hooks, calls of other keeper functions -/
@@ -116,6 +117,7 @@ inductive GName where
   | execStandBy | execStarted | execVesting | closeFixed | closeBatch | extendRound
   | allocateSellingCoin | refundRemainingSellingCoin | refundPayingCoin | applyVestingSchedules
   | calcBatch | paramsSet | matchedLenSet | beforeSellingCoinsAllocated | inputOutputCoins
+  | fundPool
   deriving DecidableEq, Repr
 
 /-- one recorded call of a translated keeper function -/
@@ -139,14 +141,18 @@ def vqCoin (q : VQ) : Coin := ⟨q.denom, q.amt⟩
 @[simp, grind =] theorem vqCoin_denom (q : VQ) : (vqCoin q).denom = q.denom := rfl
 @[simp, grind =] theorem vqCoin_amt (q : VQ) : (vqCoin q).amt = q.amt := rfl
 
-/-- `types.NewBaseAuction(…)`; the three reserve addresses are functions of the id in the model
-    and are not stored (the translation checks nothing about them here: `Props/C19` does) -/
-def newBaseAuction (id : Int) (ty : AType) (auctioneer : Acc) (_sell _pay : Addr) (startPrice : Dec)
-    (sellingCoin : Coin) (payDenom : Denom) (_vest : Addr) (schedules : List VS) (startTime : Int)
+/-- `types.NewBaseAuction(…)`.  In the model the three reserve addresses are FUNCTIONS of the
+    auction id and are not stored; an auction record whose stored reserve addresses are not the
+    ones derived from its own id (`types.SellingReserveAddress(id)` …) has no counterpart in the
+    model: it is mapped to the default record, and the tie of the creating handler fails -/
+def newBaseAuction (id : Int) (ty : AType) (auctioneer : Acc) (sell pay : Addr) (startPrice : Dec)
+    (sellingCoin : Coin) (payDenom : Denom) (vest : Addr) (schedules : List VS) (startTime : Int)
     (endTimes : List Int) (status : Status) : Auction :=
-  { id := id.toNat, type := ty, auctioneer := auctioneer, sellDenom := sellingCoin.denom, sellAmt := sellingCoin.amt,
-    payDenom := payDenom, startPrice := startPrice, startTime := startTime, endTimes := endTimes,
-    schedules := schedules, status := status }
+  if sell = Addr.sell id.toNat ∧ pay = Addr.pay id.toNat ∧ vest = Addr.vest id.toNat then
+    { id := id.toNat, type := ty, auctioneer := auctioneer, sellDenom := sellingCoin.denom, sellAmt := sellingCoin.amt,
+      payDenom := payDenom, startPrice := startPrice, startTime := startTime, endTimes := endTimes,
+      schedules := schedules, status := status }
+  else default
 
 /-- `types.NewFixedPriceAuction(base, remainingSellingCoin)` -/
 def newFixedPriceAuction (ba : Auction) (remaining : Coin) : Auction := { ba with remaining := remaining.amt }
